@@ -183,12 +183,18 @@ def check_incomplete(case, ctx):
 KN = [(k, n) for n in range(1, 6) for k in range(1, n + 1)]
 
 
+WARMUPS = ["single_leaf", "multi_leaf_tree", "musig_tree", "musig_and_single_leaf_tree", "everything_tree",
+           "degrading_blocks", "degrading_time"]
+
+
 def tree_cases(tier):
     return st.sampled_from(KN).flatmap(lambda kn: st.fixed_dictionaries({
         "k": st.just(kn[0]), "n": st.just(kn[1]),
         "secrets": st.lists(gen.uniform_int(1, N - 1), min_size=kn[1], max_size=kn[1], unique=True),
         "subset": st.permutations(list(range(kn[1]))).map(lambda p: sorted(p[: kn[0]])),
         "kind": st.sampled_from(["multi_leaf", "musig"]),
+        # other tree builders called on the SAME TapRootMultiSig object first (results discarded)
+        "warmup": st.lists(st.sampled_from(WARMUPS), min_size=0, max_size=3),
         "nonces": st.lists(st.tuples(gen.secrets(), gen.secrets()), min_size=kn[0], max_size=kn[0]),
         "amount": st.integers(1000, 2**40), "version": st.sampled_from([1, 2]),
     }))
@@ -208,6 +214,14 @@ def check_trees(case, ctx):
     xs = [p.point.xonly() for p in privs]
     trm = must(TapRootMultiSig, "trees/constructor", [p.point for p in privs], k)
     subsets = [frozenset(c) for c in combinations(xs, k)]
+    for wu in case.get("warmup", []):
+        ctx.label("warmup:" + wu)
+        if wu == "degrading_blocks":
+            attempt(trm.degrading_multisig_tree, sequence_block_interval=18)
+        elif wu == "degrading_time":
+            attempt(trm.degrading_multisig_tree, sequence_time_interval=512 * 7)
+        elif k >= 2 or "musig" not in wu and wu != "everything_tree":
+            attempt(getattr(trm, wu))
     if kind == "multi_leaf":
         tree = must(trm.multi_leaf_tree, "trees/multi_leaf_tree")
         leaves = tree.leaves()
@@ -257,6 +271,8 @@ def check_trees(case, ctx):
         msg = tx.sig_hash(0, 0)
         ks = [tuple(x) for x in case["nonces"]]
         sums = musig.nonce_sums([(pt(ec.mul(a)), pt(ec.mul(b))) for a, b in ks])
+        if any(s.x is None for s in sums):
+            raise Discard("a nonce sum at infinity (the participants' nonces cancel): outside the scheme")
         r = musig.compute_r(sums, msg)
         if r.x is None:
             raise Discard("R at infinity")
@@ -274,5 +290,6 @@ SUBS = [
     Sub("musig_incomplete", check_incomplete, strategy=musig_cases, budget={"quick": 200, "thorough": 6000},
         required=["fault:" + f for f in ("omit", "alter", "alter_small", "swap_nonce_share", "double")]),
     Sub("trees_cover_subsets", check_trees, strategy=tree_cases, budget={"quick": 250, "thorough": 5000},
-        required=[f"multi_leaf:k={k},n={n}" for k, n in KN] + [f"musig:k={k},n={n}" for k, n in KN if k >= 2]),
+        required=[f"multi_leaf:k={k},n={n}" for k, n in KN] + [f"musig:k={k},n={n}" for k, n in KN if k >= 2]
+        + ["warmup:" + w for w in WARMUPS]),
 ]
